@@ -174,12 +174,15 @@ def _gen_pair(rng, level, cfg):
 
 def generate(rng, opts):
     placement = rng.choice(["sibling", "sibling", "stubs_pkg", "single"])
+    # the implementation module the public modules re-export from: a private sub-module, or a private *sibling package*
+    # (`pkg` re-exporting from `_pkg`, the layout Griffe itself uses); the latter is a package of its own in the collection
+    impl = "pkg._impl" if rng.random() < 0.75 else "_pkg"
     cfg = {
         "p_mismatch": rng.choice([0.0, 0.1, 0.25]),
         "p_import": rng.choice([0.0, 0.5, 1.0]),
         "p_overloads": rng.choice([0.0, 0.2, 0.5]),
         "p_overload_impl": rng.choice([0.0, 0.0, 0.3]),
-        "import_sources": rng.choice([["pkg._impl"], ["pkg._impl", "pkg._missing"], ["pkg._impl", "pkg._missing", "ext"], ["ext"]]),
+        "import_sources": rng.choice([[impl], [impl, "pkg._missing"], [impl, "pkg._missing", "ext"], ["ext"]]),
         "p_star": rng.choice([0.0, 0.0, 0.4]),
         "p_guard": rng.choice([0.0, 0.0, 0.2]),
         # a wildcard import that only the stubs have (lazy `__getattr__` packages whose __init__.pyi re-exports with a star)
@@ -219,13 +222,13 @@ def generate(rng, opts):
             has_rt, has_st = True, True
         if mp in ("pkg", "mod") and rng.random() < 0.8:
             has_st = True
-        if has_rt and placement != "single" and mp != "pkg._impl" and rng.random() < cfg["p_star"]:
+        if has_rt and placement != "single" and mp != impl and rng.random() < cfg["p_star"]:
             # `from pkg._impl import *` as the first statement: re-exports f, g, C, x unless defined locally
-            rt.insert(0, {"k": "star", "name": "*", "from": "pkg._impl"})
-        elif has_rt and has_st and placement != "single" and mp != "pkg._impl" and rng.random() < cfg["p_star_st"]:
+            rt.insert(0, {"k": "star", "name": "*", "from": impl})
+        elif has_rt and has_st and placement != "single" and mp != impl and rng.random() < cfg["p_star_st"]:
             # `from pkg._impl import *` in the stubs only, above or below the stubs' own definitions: the names it
             # brings are stub-only members unless the runtime module defines them itself
-            st.insert(rng.choice([0, len(st)]), {"k": "star", "name": "*", "from": "pkg._impl"})
+            st.insert(rng.choice([0, len(st)]), {"k": "star", "name": "*", "from": impl})
         modules[mp] = {
             "rt": {"doc": _gen_doc(rng, "rt " + mp), "members": rt} if has_rt else None,
             "st": {"doc": _gen_doc(rng, "st " + mp), "members": st} if has_st else None,
@@ -236,7 +239,7 @@ def generate(rng, opts):
             if modules["pkg.a"][side]:
                 for m in _all_members(modules["pkg.a"][side]["members"]):
                     if m.get("from") == "pkg.a":
-                        m["from"] = "pkg._impl"
+                        m["from"] = impl
     if placement != "single" and rng.random() < 0.15:
         # stubs declared at the *public* location of a class the runtime package merely re-exports from a private module
         mp = rng.choice([m for m in modpaths if modules[m]["rt"] is not None] or ["pkg"])
@@ -244,7 +247,7 @@ def generate(rng, opts):
         if sides["rt"] is not None:
             if sides["st"] is None:
                 sides["st"] = {"doc": None, "members": []}
-            sides["rt"]["members"] = [m for m in sides["rt"]["members"] if m["name"] != "C"] + [{"k": "import", "name": "C", "from": "pkg._impl", "orig": "C"}]
+            sides["rt"]["members"] = [m for m in sides["rt"]["members"] if m["name"] != "C"] + [{"k": "import", "name": "C", "from": impl, "orig": "C"}]
             extra = [_gen_member(rng, n, DEFAULT_KIND[n], "st", 1, cfg) for n in rng.sample(["n", "v"], rng.choice([1, 2]))]
             stub_c = {"k": "class", "name": "C", "doc": None, "bases": [], "members": [{"k": "func", "name": "m", "params": [["self", None, False]], "ret": "int", "doc": None}] + extra}
             sides["st"]["members"] = [m for m in sides["st"]["members"] if m["name"] != "C"] + [stub_c]
@@ -268,8 +271,8 @@ def generate(rng, opts):
         modules["pkg._compat"] = {"rt": {"doc": _gen_doc(rng, "rt pkg._compat"), "members": rt_members}, "st": None}
         modules["pkg.compat"] = {"rt": None, "st": {"doc": _gen_doc(rng, "st pkg.compat"), "members": st_members}}
         modules["pkg"]["rt"]["members"] = [m for m in modules["pkg"]["rt"]["members"] if m["name"] != "compat"] + [{"k": "import", "name": "compat", "from": "pkg", "orig": "_compat"}]
-    if placement != "single" and any("pkg._impl" == m.get("from") for mod in modules.values() for side in ("rt", "st") if mod[side] for m in _all_members(mod[side]["members"])):  # incl. star imports
-        modules["pkg._impl"] = {"rt": {"doc": None, "members": copy.deepcopy(IMPL_MEMBERS)}, "st": None}
+    if placement != "single" and any(impl == m.get("from") for mod in modules.values() for side in ("rt", "st") if mod[side] for m in _all_members(mod[side]["members"])):  # incl. star imports
+        modules[impl] = {"rt": {"doc": None, "members": copy.deepcopy(IMPL_MEMBERS)}, "st": None}
     compiled = {}
     if placement != "single" and rng.random() < 0.2:
         # runtime modules that exist only in compiled form (extension module, sourceless bytecode) next to their stubs:
@@ -281,8 +284,10 @@ def generate(rng, opts):
     chosen = rng.sample(bases, rng.choice([1, 1, 2]))
     schedules = [{"base": b, "stub_first": sf} for b in chosen for sf in (False, True)]
     rng.shuffle(schedules)
+    # files saved with a UTF-8 byte order mark (either side of a pair)
+    bom = sorted(f"{mp}:{side}" for mp in modules for side in ("rt", "st") if modules[mp][side] is not None and rng.random() < 0.3) if rng.random() < 0.1 else []
     return {
-        "world": {"placement": placement, "top": top, "modules": modules, "compiled": compiled, "reexported_module": reexported_module, "single_stubs_pkg": single_stubs_pkg, "stubs_other_sp": placement == "stubs_pkg" and rng.random() < 0.5, "stubs_sp_first": rng.random() < 0.5,
+        "world": {"bom": bom, "impl": impl, "preload_impl": impl == "_pkg", "placement": placement, "top": top, "modules": modules, "compiled": compiled, "reexported_module": reexported_module, "single_stubs_pkg": single_stubs_pkg, "stubs_other_sp": placement == "stubs_pkg" and rng.random() < 0.5, "stubs_sp_first": rng.random() < 0.5,
                   # looking for a <pkg>-stubs package is an option of the caller, whether or not one exists
                   "find_stubs_package": placement == "stubs_pkg" or single_stubs_pkg or rng.random() < 0.3},
         "schedules": schedules,
@@ -323,6 +328,8 @@ def render_world(world):
             if sides[side] is None:
                 continue
             src = pysrc.render_module(sides[side]["doc"], sides[side]["members"], stub=side == "st")
+            if f"{mp}:{side}" in world.get("bom", ()):
+                src = "\ufeff" + src
             if side == "st" and placement == "stubs_pkg":
                 parts2 = [parts[0] + "-stubs"] + parts[1:]
                 target = sp1 if world.get("stubs_other_sp") else sp0
@@ -479,7 +486,7 @@ _STAR_NAMES: list = []
 
 def exp_world(world):
     mods = world["modules"]
-    impl = mods.get("pkg._impl")
+    impl = mods.get(world.get("impl", "pkg._impl"))
     _STAR_NAMES[:] = [m["name"] for m in impl["rt"]["members"] if not m["name"].startswith("_")] if impl and impl["rt"] else []
 
     def build(mp):
@@ -498,7 +505,7 @@ def exp_world(world):
         if st is not None and any(m["k"] == "overloads" for m in _all_members(st["members"])):
             # the rendered stub file starts with `from typing import overload`
             node["members"].setdefault("overload", {"kind": "alias", "target": "typing.overload", "runtime": ANY})
-        if mp == "pkg._impl":
+        if mp == world.get("impl", "pkg._impl"):
             node = {"kind": "module", "members_at_least": sorted(m["name"] for m in rt["members"])}
             return node
         rex = world.get("reexported_module")
@@ -677,7 +684,7 @@ def judge_monitor(ctx, mon, world):
         # stubs may sit at the public location of a re-exported class (pkg.sub.C for pkg._impl.C): a re-declaration
         # in a stub class of that name counts for the class the re-export leads to
         # (the re-export may rename: `from pkg._impl import C as m` with the stubs declaring class m)
-        elsewhere = set().union(*[names for path, names in defs.items() if "." in path and cpath.startswith(world["top"] + "._impl.")] or [set()])
+        elsewhere = set().union(*[names for path, names in defs.items() if "." in path and cpath.startswith(world.get("impl", "pkg._impl") + ".")] or [set()])
         if alias.name not in defs.get(cpath, ()) and alias.name not in elsewhere:
             ctx.fail("M-resolve-runtime-alias", f"merging resolved runtime alias {cpath}.{alias.name} -> {alias.target_path} although the stubs do not re-declare it", tags=["runtime-side"])
             return
@@ -711,7 +718,7 @@ def _trigger_tags(world):
         # stubs of a sub-module are merged while the package is being loaded, i.e. before wildcard imports are expanded
         if world["placement"] != "stubs_pkg" and mp != world["top"] and any(m["k"] == "star" for m in sides["rt"]["members"]):
             local = {m["name"] for m in sides["rt"]["members"]}
-            impl = world["modules"].get("pkg._impl")
+            impl = world["modules"].get(world.get("impl", "pkg._impl"))
             star_names = {m["name"] for m in impl["rt"]["members"]} if impl and impl["rt"] else set()
             if any(s["name"] in star_names and s["name"] not in local for s in sides["st"]["members"]):
                 tags.add("submodule-stubs-redeclare-wildcard-reexport")
@@ -785,20 +792,20 @@ def public_location_stub_members(world):
     class of pkg._impl - only where the merge happens after the whole package is loaded (top-level module, or a
     separate stubs package), so that the re-export can be followed."""
     mods = world["modules"]
-    impl = mods.get("pkg._impl")
+    impl = mods.get(world.get("impl", "pkg._impl"))
     if not impl or not impl["rt"]:
         return []
     impl_by = {m["name"]: m for m in impl["rt"]["members"]}
     out = []
     for mp, sides in mods.items():
-        if not (sides["rt"] and sides["st"]) or mp == "pkg._impl":
+        if not (sides["rt"] and sides["st"]) or mp == world.get("impl", "pkg._impl"):
             continue
         if not (mp == world["top"] or world["placement"] == "stubs_pkg"):
             continue
         if any(m["k"] == "star" for m in sides["rt"]["members"]):
             continue
         for r in sides["rt"]["members"]:
-            if r["k"] != "import" or r.get("from") != "pkg._impl" or r.get("guard"):
+            if r["k"] != "import" or r.get("from") != world.get("impl", "pkg._impl") or r.get("guard"):
                 continue
             target = impl_by.get(r["orig"])
             st = next((m for m in sides["st"]["members"] if m["name"] == r["name"]), None)
@@ -847,7 +854,7 @@ def _source_inspect(module_name, filepath=None, parent=None, lines_collection=No
 
     if filepath is None or str(filepath).endswith((".py", ".pyi")):
         raise ImportError(f"stand-in inspector: refusing {module_name} ({filepath})")
-    code = _real_read_text(Path(filepath), encoding="utf8")
+    code = _real_read_text(Path(filepath), encoding="utf-8-sig")
     return griffe.visit(module_name, filepath=Path(filepath), code=code, parent=parent, lines_collection=lines_collection, modules_collection=modules_collection)
 
 
@@ -875,7 +882,11 @@ def load_runtime_only(griffe, world):
     with World([sp0], tag="c19r-") as w:
         try:
             with _inspector_for(world) as insp:
-                top = griffe.load(world["top"], search_paths=w.sp_dirs, allow_inspection=insp, try_relative_path=False)
+                collection = None
+                if world.get("preload_impl") and world.get("impl") in world["modules"]:
+                    collection = griffe.ModulesCollection()
+                    griffe.load(world["impl"], search_paths=w.sp_dirs, allow_inspection=False, try_relative_path=False, modules_collection=collection)
+                top = griffe.load(world["top"], search_paths=w.sp_dirs, allow_inspection=insp, try_relative_path=False, modules_collection=collection)
         except Exception:  # noqa: BLE001
             return None
         return runtime_facts(w, top)
@@ -900,12 +911,19 @@ def execute(plan, ctx):
                 try:
                     # the search path holding the stubs package may come before or after the one with the runtime package
                     sps = list(reversed(w.sp_dirs)) if world.get("stubs_sp_first") else w.sp_dirs
+                    collection = None
+                    if world.get("preload_impl") and world.get("impl") in world["modules"]:
+                        # a long-lived loader / shared collection that already holds the private sibling package
+                        collection = griffe.ModulesCollection()
+                        griffe.load(world["impl"], search_paths=sps, allow_inspection=False, try_relative_path=False, modules_collection=collection)
+                        ctx.probe("implementation-package-loaded-before")
                     top = griffe.load(
                         world["top"],
                         search_paths=sps,
                         allow_inspection=insp,
                         try_relative_path=False,
                         find_stubs_package=world.get("find_stubs_package", world["placement"] == "stubs_pkg"),
+                        modules_collection=collection,
                     )
                     tree = norm(top)
                 except Exception as e:  # noqa: BLE001
@@ -932,7 +950,7 @@ def execute(plan, ctx):
                 # parameter names/kinds/defaults, file, non-empty docstring) may be lost or altered by the merge
                 merged_facts = runtime_facts(w, top)
                 for path, f0 in base_facts.items():
-                    if path.startswith(world["top"] + "._impl"):
+                    if path.startswith(world.get("impl", "pkg._impl")):
                         continue  # targets of runtime aliases that the stubs re-declare may legitimately be merged into
                     f1 = merged_facts.get(path)
                     # a runtime docstring must survive; where there was none the stubs may provide one
@@ -942,7 +960,8 @@ def execute(plan, ctx):
                 ctx.probe("differential-runtime-facts-compared", len(base_facts))
             # stub-only members of a class whose stubs sit at its public (re-exporting) location end up in the class
             for mp, cname, only in public_location_stub_members(world):
-                impl_mod = top.members.get("_impl")
+                implname = world.get("impl", "pkg._impl")
+                impl_mod = top.members.get("_impl") if "." in implname else top.modules_collection.members.get(implname)
                 cls = impl_mod.members.get(cname) if impl_mod is not None and not impl_mod.is_alias else None
                 if cls is None or cls.is_alias:
                     continue
@@ -1031,7 +1050,7 @@ def shrink_candidates(plan):
                 yield {**plan, "schedules": scheds}
     mods = world["modules"]
     for mp in list(mods):
-        if mp in (world["top"], "pkg._impl"):
+        if mp in (world["top"], world.get("impl", "pkg._impl")):
             continue
         if any(o.startswith(mp + ".") for o in mods):
             continue
@@ -1076,7 +1095,7 @@ class _Prop:
         "(sorted, reversed, hashed permutation of every directory listing) x {x.py before x.pyi, x.pyi before x.py}; "
         "each load is compared with a reference merge model and monitored for alias resolution inside merger.py, "
         "and the two pair orders of one base order must give the same normalised tree. Non-trivial = at least one directory listing had a choice of order; distinct = "
-        "distinct (placement, merged-tree hash, number of schedules), counted with a set of 64-bit hashes. Also drawn: decorators, class bases, properties with setters/deleters, shuffled stub parameter order, wildcard re-exports (`from pkg._impl import *`) in runtime modules, find_stubs_package independent of the placement, either order of the two search paths; every load is additionally compared with a stubs-free load of the same world (no runtime fact may change) and checked for parent/container consistency. Round r: wildcard imports that only the stubs have. Round j/k: members under `if TYPE_CHECKING:`; runtime modules that exist only in compiled form (.so/.pyd/.pyc next to their stubs, analysed through a stand-in inspector); stubs declared at the public location of a class the runtime re-exports (its stub-only members must reach the class)."
+        "distinct (placement, merged-tree hash, number of schedules), counted with a set of 64-bit hashes. Also drawn: decorators, class bases, properties with setters/deleters, shuffled stub parameter order, wildcard re-exports (`from pkg._impl import *`) in runtime modules, find_stubs_package independent of the placement, either order of the two search paths; every load is additionally compared with a stubs-free load of the same world (no runtime fact may change) and checked for parent/container consistency. Round s: the implementation module as a private sibling package held by the collection before the load. Round r: wildcard imports that only the stubs have. Round j/k: members under `if TYPE_CHECKING:`; runtime modules that exist only in compiled form (.so/.pyd/.pyc next to their stubs, analysed through a stand-in inspector); stubs declared at the public location of a class the runtime re-exports (its stub-only members must reach the class)."
     )
     COMPONENTS = {
         "real": ["_griffe.loader", "_griffe.finder", "_griffe.agents.visitor", "_griffe.merger", "_griffe.mixins.set_member", "_griffe.models", "real files on tmpfs"],
